@@ -113,21 +113,25 @@ class FetchHandle(Contract):
     props = ("C09", "C02")
 
     def cases(self):
-        return ["data", "object", "group"]
+        return ["data", "object", "group", "data-type", "object-type", "group-type"]
 
     def setup(self, ctx):
         from geoh5py.io.h5_writer import H5Writer
 
         f = F(ctx)
-        e = entity(ctx, ctx.case)
-        # no assumption on the entity's name: an entity may be called like the project group
+        if ctx.case.endswith("-type"):
+            _, tcls = classes()
+            e = AbsObj("entity_type", {"uid": sym("type_uid", "uid"), "name": sym("type_name", "str")}, cls=tcls[ctx.case[:-5]])
+        else:
+            e = entity(ctx, ctx.case)
+        # no assumption on the name: an entity or a type may be called like the project group
         ctx.env.update(f=f, e=e)
         return [H5Writer, f.file, e], {}
 
     def post(self, ctx, result):
         f, e = ctx.env["f"], ctx.env["e"]
         un = f.uname(ctx.I, e.attrs["uid"])
-        node = f.flat(f.pre, ctx.case, un)
+        node = f.pre.link(f.tcont[ctx.case[:-5]], un) if ctx.case.endswith("-type") else f.flat(f.pre, ctx.case, un)
         if result is None:
             ctx.oblige("none-only-when-the-entity-is-not-stored", node == 0)
         else:
